@@ -101,6 +101,7 @@ def eval_adverb_each_index(f, a, op, backend):
     if is_empty(a):
         return a
     if is_iterable(a):
+        a = backend.str_to_chr_arr(a) if isinstance(a,str) else a
         r = [f(backend.kg_asarray([i, x])) for i, x in enumerate(a)]
         return backend.kg_asarray(r)
     return f(backend.kg_asarray([0, a]))
@@ -127,6 +128,8 @@ def eval_adverb_each2(f, a, b):
         return bknp.asarray([]) if is_list(a) or is_list(b) else ""
     if is_atom(a) and is_atom(b):
         return f(a,b)
+    a = [KGChar(x) for x in a] if isinstance(a,str) else a
+    b = [KGChar(x) for x in b] if isinstance(b,str) else b
     r = bknp.asarray([f(x,y) for x,y in zip(a,b)])
     return ''.join(r) if r.dtype == '<U1' else r
 
@@ -224,6 +227,7 @@ def eval_adverb_over(f, a, op, backend):
     """
     if is_atom(a):
         return a
+    a = backend.str_to_chr_arr(a) if isinstance(a,str) else a
     if len(a) == 1:
         return a[0]
     # Use backend's ufunc reduce when available for better performance
@@ -276,6 +280,7 @@ def eval_adverb_over_neutral(f, a, b):
         return a
     if is_atom(b):
         return f(a,b)
+    b = [KGChar(x) for x in b] if isinstance(b,str) else b
     return functools.reduce(f,b[1:],f(a,b[0]))
 
 
@@ -306,6 +311,7 @@ def eval_adverb_scan_over_neutral(f, a, b, backend):
         return a
     if is_atom(b):
         b = [b]
+    b = backend.str_to_chr_arr(b) if isinstance(b,str) else b
     b = [f(a,b[0]), *b[1:]]
     r = list(itertools.accumulate(b,f))
     q = backend.kg_asarray(r)
@@ -323,6 +329,7 @@ def eval_adverb_scan_over(f, a, op, backend):
         # reference: "If only one single argument is supplied, the argument
         # will be returned in a list, e.g.: +\\1 --> [1]"
         return backend.kg_asarray([a])
+    a = backend.str_to_chr_arr(a) if isinstance(a,str) else a
     # Use backend's ufunc accumulate when available for better performance
     np_backend = backend.np
     if isinstance(op, KGOp):
